@@ -35,7 +35,7 @@ REQUIRED_MONITORS = ["h5_streams_checked", "h5_rows_compared", "xyz_frames_check
                      "checkpoint_events_checked", "absent_streams_checked", "resumed_runs_checked"]
 CASE_TIMEOUT = 900.0
 # budgets are sized for 16 workers; with fewer workers (VERIF_NCPU) the same work needs proportionally longer
-_SCALE = max(1.0, 16.0 / max(1, env.NCPU))
+_SCALE = max(1.0, 16.0 / max(1, env.NCPU)) * float(os.environ.get("VERIF_BUDGET_SCALE", "1"))   # >1 on a loaded machine
 BUDGET_S = {"quick": 200 * _SCALE, "thorough": 1700 * _SCALE}
 MIN_NONTRIVIAL = 4
 
@@ -485,6 +485,9 @@ def run_case(case):
                 "detail": {"tuple": ref_tuple, "engine": case["engine"], "mols": case["mols"], "N": N,
                            "error": err[0]["type"] + ": " + err[0]["msg"], "tb": err[0]["tb"][-800:]}}]}
         mon["reference_runs"] += 1
+        miss = [e["names"] for e in mdio.read_events(d + "/ref.ev") if e.get("ev") == "missing_symbols"]
+        if miss:   # a refactor renamed a wrapped internal: say which, do not guess
+            return {"inconclusive": "wrapped symbols not found in the repository: %s" % miss[0]}
         ref = {"h5": {}, "atoms": {}}
         bad_ref = []
         for mol in range(len(case["mols"])):
